@@ -131,7 +131,7 @@ vp_sys g_sys;
 #define g_fin_last_rv g_sys.fin_last_rv
 #define g_fin_last_count g_sys.fin_last_count
 /* errno mapping (nni_plat_errno): ASSUMED injective and never 0 for a failed call; modelled as NNG_ESYSERR + errno */
-#define VP_PLAT(e) ((int) NNG_ESYSERR + (e))
+#define VP_PLAT(e) ((int) ((unsigned) NNG_ESYSERR + (unsigned) (e)))
 
 /* ---- poller ----------------------------------------------------------------- */
 int            g_pfd_fd; /* descriptor of the connection (arbitrary, may be negative = already closed) */
